@@ -935,6 +935,87 @@ def _split_tuple_assignments(tree, count):
     tree.body = block(tree.body)
 
 
+def _inline_context_managers(tree, count):
+    """K17: `with self.m(..) as x: BODY` where m is a `@contextmanager` method of the same class whose body has exactly one
+    `yield E` (as a statement of its own, not inside a loop or a try that catches) becomes m's statements with the yield
+    replaced by `x = E; BODY`.  A `return V` at the end of BODY leaves the with-block normally, so the statements behind
+    the yield still run before the function returns: `__ret = V; <rest of m>; return __ret`.  Returns elsewhere in BODY,
+    parameters of m that are re-bound, or names of m that the caller also uses make the rewrite inexact - then nothing is
+    done."""
+    for cls in [c for c in ast.walk(tree) if isinstance(c, ast.ClassDef)]:
+        cms = {}
+        for st in cls.body:
+            if isinstance(st, ast.FunctionDef) and any((isinstance(d, ast.Name) and d.id == "contextmanager") or (isinstance(d, ast.Attribute) and d.attr == "contextmanager") for d in st.decorator_list) and len(st.decorator_list) == 1:
+                ys = [y for y in ast.walk(st) if isinstance(y, (ast.Yield, ast.YieldFrom))]
+                if len(ys) == 1 and isinstance(ys[0], ast.Yield) and not st.args.vararg and not st.args.kwarg and not st.args.kwonlyargs and not st.args.defaults and not any(isinstance(y, ast.Return) for y in ast.walk(st)):
+                    cms[st.name] = (st, ys[0])
+        if not cms:
+            continue
+        for fn in [f for f in cls.body if isinstance(f, ast.FunctionDef) and f.name not in cms and f.args.args]:
+            selfname = fn.args.args[0].arg
+
+            def yield_path(stmts, y):
+                """the statement list that holds `yield` as an expression statement, reached only through with-blocks and
+                try/finally (no handlers, no loops, no conditionals)"""
+                for i, st in enumerate(stmts):
+                    if isinstance(st, ast.Expr) and st.value is y:
+                        return stmts, i
+                    if isinstance(st, ast.With) or (isinstance(st, ast.Try) and not st.handlers and not st.orelse):
+                        r = yield_path(st.body, y)
+                        if r is not None:
+                            return r
+                return None
+
+            def block(stmts):
+                out = []
+                for st in stmts:
+                    for fld in ("body", "orelse", "finalbody"):
+                        blk = getattr(st, fld, None)
+                        if isinstance(blk, list) and blk and isinstance(blk[0], ast.stmt) and not isinstance(st, (ast.FunctionDef, ast.ClassDef)):
+                            setattr(st, fld, block(blk))
+                    if isinstance(st, ast.With) and len(st.items) == 1 and isinstance(st.items[0].context_expr, ast.Call):
+                        c = st.items[0].context_expr
+                        tgt = st.items[0].optional_vars
+                        if isinstance(c.func, ast.Attribute) and isinstance(c.func.value, ast.Name) and c.func.value.id == selfname and c.func.attr in cms and not c.keywords and not any(isinstance(a, ast.Starred) for a in c.args) and (tgt is None or isinstance(tgt, ast.Name)):
+                            m, y = cms[c.func.attr]
+                            params = [a.arg for a in m.args.args]
+                            if len(c.args) == len(params) - 1 and all(_is_ref(a) or _is_literal(a) for a in c.args):
+                                m_stores = {x.id for x in ast.walk(m) if isinstance(x, ast.Name) and not isinstance(x.ctx, ast.Load)}
+                                fn_names = {x.id for x in ast.walk(fn) if isinstance(x, ast.Name)} | {a.arg for a in ast.walk(fn.args) if isinstance(a, ast.arg)}
+                                body = st.body
+                                rets = [r for b in body for r in ast.walk(b) if isinstance(r, ast.Return)]
+                                tail_ret = body[-1] if isinstance(body[-1], ast.Return) else None
+                                inner_defs = any(isinstance(x, (ast.FunctionDef, ast.Lambda)) for b in body for x in ast.walk(b))
+                                if not (m_stores & set(params)) and not (m_stores & fn_names) and len(rets) == (1 if tail_ret is not None else 0) and not inner_defs and "__ret" not in fn_names:
+                                    mapping = {params[0]: ast.Name(id=selfname, ctx=ast.Load())}
+                                    mapping.update(dict(zip(params[1:], c.args)))
+                                    mbody = [_Subst(mapping).visit(_copy(b)) for b in m.body if not (isinstance(b, ast.Expr) and isinstance(b.value, ast.Constant))]
+                                    ycopy = [yy for b in mbody for yy in ast.walk(b) if isinstance(yy, ast.Yield)]
+                                    loc = yield_path(mbody, ycopy[0]) if len(ycopy) == 1 else None
+                                    if loc is not None:
+                                        lst, i = loc
+                                        new = []
+                                        if tgt is not None:
+                                            new.append(ast.copy_location(ast.Assign(targets=[ast.Name(id=tgt.id, ctx=ast.Store())], value=ycopy[0].value if ycopy[0].value is not None else ast.Constant(value=None)), st))
+                                        if tail_ret is not None:
+                                            new += body[:-1]
+                                            new.append(ast.copy_location(ast.Assign(targets=[ast.Name(id="__ret", ctx=ast.Store())], value=tail_ret.value if tail_ret.value is not None else ast.Constant(value=None)), tail_ret))
+                                        else:
+                                            new += body
+                                        lst[i : i + 1] = new
+                                        if tail_ret is not None:
+                                            mbody.append(ast.copy_location(ast.Return(value=ast.Name(id="__ret", ctx=ast.Load())), tail_ret))
+                                        for nb in mbody:
+                                            ast.copy_location(nb, st)
+                                        count["K17"] = count.get("K17", 0) + 1
+                                        out.extend(mbody)
+                                        continue
+                    out.append(st)
+                return out
+
+            fn.body = block(fn.body)
+
+
 def _spread_keyword_dicts(fn, count):
     import keyword as _kw
 
@@ -1274,6 +1355,7 @@ def canonicalise(tree, global_tables=None, global_defs=None, module_name=None, i
     # K11: calls of small local factories
     for fn in [n for n in ast.walk(tree) if isinstance(n, (ast.FunctionDef, ast.AsyncFunctionDef))]:
         _inline_local_factories(fn, count)
+    _inline_context_managers(tree, count)
     # K9 / K10 (only where setattr / getattr are the builtins)
     if not _shadows_builtin(tree, "setattr") and not _shadows_builtin(tree, "getattr"):
         _AttrCalls(count).visit(tree)
